@@ -7,7 +7,7 @@ CONSTANTS
   MaxLatch = 2
   FileSteps = FALSE
   QKinds = {"past", "exact", "future"}
-  Fix = {}
+  Fix = {"stale", "zero", "tmp"}
   KKOps = {"U", "R", "T"}
 VIEW gview
 INVARIANTS PrintReplay
